@@ -5,56 +5,68 @@ C12 — A data packet is delivered at most once.
 test or relayed packet on a tunnel is acted upon at most once, and a replayed copy (arriving directly
 or through a relay) is never delivered to the tun device."
 
-Model: `Model/Decrypt.lean` — every goroutine handling a received packet runs Check (atomic, under
-`decryptLock`) → AEAD open (oracle `authOK`) → Update (atomic, under `decryptLock`) on the tunnel's
-window (`Model/Bits.lean`, the C11 model); a packet is delivered only when all three succeed
-(`Decrypt` for direct packets, `VerifyRelay` for relayed ones run the same program on the window of
-the tunnel they arrived on). Quantifier: every list of thread identifiers (= every interleaving of
-any number of goroutines), every packet table (any counters, duplicates, replays, forged packets),
-every power-of-two window length.
+Model: `Model/Decrypt.lean`. Every goroutine handling a received UDP packet walks through the packet's
+layers, outermost first; on each layer it runs Check (atomic, under that tunnel's `decryptLock`) → AEAD
+open (oracle `authOK`) → Update (atomic) on the window of the layer's tunnel (`Model/Bits.lean`, the C11
+model) and acts on the layer only when all three succeed: one layer for a direct packet (`Decrypt`) or
+for a relay packet at a forwarding relay (`VerifyRelay`); two layers for a relayed packet at its
+terminal peer (`VerifyRelay` on the relay tunnel's window, then `readOutsidePackets` recurses and
+`Decrypt` runs on the end-to-end tunnel's window). Quantifier: every list of thread identifiers (= every
+interleaving of any number of goroutines), every packet table (any nesting, counters, duplicates,
+replays, forged layers), any number of tunnels, every power-of-two window length per tunnel.
 
 Assumed (DESIGN §3): `sync.Mutex` gives mutual exclusion, so the two locked regions are atomic steps
-(tied by the lock-bracketing facts extracted from connection_state.go); the AEAD is an oracle.
+(tied by the lock-bracketing facts extracted from connection_state.go and the dispatch-order facts
+extracted from outside.go); the AEAD is an oracle.
 -/
 import Nebula.Lemmas.DecryptWindow
 
 namespace Nebula.Props.C12
 open Nebula.Bits Nebula.Decrypt Nebula.Lemmas.Decrypt Nebula.Lemmas.Bits Nebula.Spec
 
-/-- Deliveries are exactly the accepted `Update`s of one sequential history on the tunnel's window;
-delivered packets are authentic; no goroutine delivers twice — every schedule, every packet table,
-any starting window. -/
-theorem deliveries_are_sequential_updates (pk : Nat → Pkt) (b0 : Bits) (sched : List Nat) :
-    (let s := run pk (init b0) sched
-     (s.window, s.delivered.map (·.2)) = feed b0 s.hist ∧
-     (∀ t c, (t, c) ∈ s.delivered → (pk t).authOK = true ∧ (pk t).ctr = c) ∧
-     (s.delivered.map (·.1)).Nodup) := by
+/-- On every tunnel, the layers acted upon are exactly the accepted `Update`s of one sequential
+history on that tunnel's window, and every layer acted upon is an authentic layer of its thread's
+packet — every schedule, every packet table, any starting windows. -/
+theorem deliveries_are_sequential_updates (pk : Nat → Pkt) (b0 : Nat → Bits) (sched : List Nat) :
+    (∀ T, ((run pk (init b0) sched).win T, onTunnel T (run pk (init b0) sched).delivered)
+        = feed (b0 T) ((run pk (init b0) sched).hist T)) ∧
+    (∀ t T c, (t, T, c) ∈ (run pk (init b0) sched).delivered →
+        ∃ li : Nat, (pk t)[li]? = some ({ tunnel := T, ctr := c, authOK := true } : Layer)) := by
   have h := run_inv sched (init b0) (inv_init pk b0)
-  exact ⟨h.hist, fun t c hm => ⟨(h.auth t c hm).1, (h.auth t c hm).2.1⟩, h.once⟩
+  exact ⟨h.hist, fun t T c hm => let ⟨li, _, h2⟩ := h.auth t T c hm; ⟨li, h2⟩⟩
 
-/-- DELIVER AT MOST ONCE: on a fresh tunnel window of any power-of-two length, under every
-interleaving of any number of goroutines over any packets, no message counter is delivered twice
-(corollary of C11's refinement over the sequential history of `Update` steps). -/
-theorem deliver_at_most_once (k : Nat) (hk : k ≤ 63) (pk : Nat → Pkt) (sched : List Nat) :
-    ∃ b0, newBits (BitVec.ofNat 64 (2 ^ k)) = some b0 ∧
-      ((run pk (init b0) sched).delivered.map (·.2)).Nodup := by
-  obtain ⟨b0, hb, r0⟩ := newBits_R k hk
-  refine ⟨b0, hb, ?_⟩
-  have h := (run_inv sched (init b0) (inv_init pk b0)).hist
-  have hn := feed_nodup r0 (run pk (init b0) sched).hist
+/-- DELIVER AT MOST ONCE, per (tunnel, counter), nested delivery included: whatever windows of
+power-of-two length the tunnels start with, under every interleaving of any number of goroutines over
+any packets, no (tunnel, counter) is acted upon twice — neither by two copies of a direct packet, nor by
+two copies of a relay packet, nor by a relayed and a direct copy of the same inner packet
+(corollary of C11's refinement over each tunnel's sequential history of `Update` steps). -/
+theorem deliver_at_most_once (L : Nat → Nat) (b0 : Nat → Bits) (hb : ∀ T, R (b0 T) (L T) Window.init)
+    (pk : Nat → Pkt) (sched : List Nat) :
+    ((run pk (init b0) sched).delivered.map (fun e => (e.2.1, e.2.2))).Nodup := by
+  apply nodup_pairs
+  intro T
+  have h := (run_inv sched (init b0) (inv_init pk b0)).hist T
+  have hn := feed_nodup (hb T) ((run pk (init b0) sched).hist T)
   rw [← h] at hn
   exact hn
 
-/-- REPLAY NOT DELIVERED: once a counter has been delivered, no continuation of the schedule —
-whatever packets (copies of the original, forged, relayed) other goroutines handle — delivers it again. -/
-theorem replay_not_delivered (k : Nat) (hk : k ≤ 63) (pk : Nat → Pkt) (sched more : List Nat)
-    (t : Nat) (c : U64) :
-    ∃ b0, newBits (BitVec.ofNat 64 (2 ^ k)) = some b0 ∧
-      ((t, c) ∈ (run pk (init b0) sched).delivered →
-        ∃ new, (run pk (init b0) (sched ++ more)).delivered = new ++ (run pk (init b0) sched).delivered ∧
-          ∀ t', (t', c) ∉ new) := by
-  obtain ⟨b0, hb, hnd⟩ := deliver_at_most_once k hk pk (sched ++ more)
-  refine ⟨b0, hb, fun hm => ?_⟩
+/-- … in particular for freshly created windows `NewBits(2^(k T))` on every tunnel `T`. -/
+theorem deliver_at_most_once_fresh (k : Nat → Nat) (hk : ∀ T, k T ≤ 63) (pk : Nat → Pkt) (sched : List Nat) :
+    ∃ b0 : Nat → Bits, (∀ T, newBits (BitVec.ofNat 64 (2 ^ k T)) = some (b0 T)) ∧
+      ((run pk (init b0) sched).delivered.map (fun e => (e.2.1, e.2.2))).Nodup := by
+  have hex : ∀ T, ∃ b, newBits (BitVec.ofNat 64 (2 ^ k T)) = some b ∧ R b (2 ^ k T) Window.init :=
+    fun T => newBits_R (k T) (hk T)
+  refine ⟨fun T => Classical.choose (hex T), fun T => (Classical.choose_spec (hex T)).1, ?_⟩
+  exact deliver_at_most_once (fun T => 2 ^ k T) _ (fun T => (Classical.choose_spec (hex T)).2) pk sched
+
+/-- REPLAY NOT DELIVERED: once (tunnel, counter) has been acted upon, no continuation of the schedule —
+whatever packets (copies of the original, forged, relayed, nested) other goroutines handle — acts on it again. -/
+theorem replay_not_delivered (L : Nat → Nat) (b0 : Nat → Bits) (hb : ∀ T, R (b0 T) (L T) Window.init)
+    (pk : Nat → Pkt) (sched more : List Nat) (t T : Nat) (c : U64)
+    (hm : (t, T, c) ∈ (run pk (init b0) sched).delivered) :
+    ∃ new, (run pk (init b0) (sched ++ more)).delivered = new ++ (run pk (init b0) sched).delivered ∧
+      ∀ t', (t', T, c) ∉ new := by
+  have hnd := deliver_at_most_once L b0 hb pk (sched ++ more)
   have e : run pk (init b0) (sched ++ more) = run pk (run pk (init b0) sched) more := by
     simp [run, List.foldl_append]
   obtain ⟨new, hnew⟩ := delivered_suffix pk more (run pk (init b0) sched)
@@ -62,29 +74,43 @@ theorem replay_not_delivered (k : Nat) (hk : k ≤ 63) (pk : Nat → Pkt) (sched
   refine ⟨new, hnew, ?_⟩
   intro t' hm'
   rw [hnew, List.map_append] at hnd
-  have := (List.nodup_append.mp hnd).2.2 c (List.mem_map.mpr ⟨(t', c), hm', rfl⟩) c
-    (List.mem_map.mpr ⟨(t, c), hm, rfl⟩)
+  have := (List.nodup_append.mp hnd).2.2 (T, c) (List.mem_map.mpr ⟨(t', T, c), hm', rfl⟩) (T, c)
+    (List.mem_map.mpr ⟨(t, T, c), hm, rfl⟩)
   exact this rfl
 
-/-- Only authenticated packets are delivered, with the counter of their header, and counter 0 never. -/
-theorem only_authenticated_delivered (k : Nat) (hk : k ≤ 63) (pk : Nat → Pkt) (sched : List Nat) :
-    ∃ b0, newBits (BitVec.ofNat 64 (2 ^ k)) = some b0 ∧
-      ∀ t c, (t, c) ∈ (run pk (init b0) sched).delivered →
-        (pk t).authOK = true ∧ (pk t).ctr = c ∧ c ≠ 0#64 := by
-  obtain ⟨b0, hb, r0⟩ := newBits_R k hk
-  refine ⟨b0, hb, fun t c hm => ?_⟩
+/-- Only authenticated layers are acted upon, with the counter of their header, and counter 0 never. -/
+theorem only_authenticated_delivered (L : Nat → Nat) (b0 : Nat → Bits) (hb : ∀ T, R (b0 T) (L T) Window.init)
+    (pk : Nat → Pkt) (sched : List Nat) (t T : Nat) (c : U64)
+    (hm : (t, T, c) ∈ (run pk (init b0) sched).delivered) :
+    (∃ li : Nat, (pk t)[li]? = some ({ tunnel := T, ctr := c, authOK := true } : Layer)) ∧ c ≠ 0#64 := by
   have hi := run_inv sched (init b0) (inv_init pk b0)
-  refine ⟨(hi.auth t c hm).1, (hi.auth t c hm).2.1, ?_⟩
+  obtain ⟨li, _, h2⟩ := hi.auth t T c hm
+  refine ⟨⟨li, h2⟩, ?_⟩
   intro e
   subst e
-  have hz := feed_zero r0 (run pk (init b0) sched).hist
-  rw [← hi.hist] at hz
-  exact hz (List.mem_map.mpr ⟨(t, 0#64), hm, rfl⟩)
+  have hz := feed_zero (hb T) ((run pk (init b0) sched).hist T)
+  rw [← hi.hist T] at hz
+  apply hz
+  simp only [onTunnel, List.mem_filterMap]
+  exact ⟨(t, T, 0#64), hm, by simp⟩
 
--- non-vacuity: two goroutines race on copies of counter 5 (both pass Check, both authenticate);
--- exactly one of them delivers. Threads 0,1: counter 5 authentic; thread 2: counter 5 forged.
-example : ∃ b0, newBits (BitVec.ofNat 64 (2 ^ 4)) = some b0 ∧
-    ((run (fun t => { ctr := 5#64, authOK := t != 2 }) (init b0) [0, 1, 2, 0, 1, 2, 0, 1, 2]).delivered.map (·.2)).Nodup :=
-  deliver_at_most_once 4 (by decide) _ _
+/-- NESTING: an inner layer is acted upon only after every layer outside it was acted upon by the same
+goroutine — the carried packet of a relay envelope is processed only if the envelope passed the relay
+tunnel's replay window (and authenticated). -/
+theorem inner_only_after_outer (pk : Nat → Pkt) (b0 : Nat → Bits) (sched : List Nat) (t T : Nat) (c : U64)
+    (hm : (t, T, c) ∈ (run pk (init b0) sched).delivered) :
+    ∃ (li : Nat) (ly : Layer), (pk t)[li]? = some ly ∧ ly.tunnel = T ∧ ly.ctr = c ∧
+      ∀ li', li' < li → ∃ ly' : Layer, (pk t)[li']? = some ly' ∧
+        (t, ly'.tunnel, ly'.ctr) ∈ (run pk (init b0) sched).delivered :=
+  (run_chain sched (init b0) (chain_init pk b0)).chain t T c hm
+
+-- non-vacuity: tunnel 0 = end-to-end, tunnel 1 = relay. Goroutines 0 and 1 carry the same inner packet
+-- (counter 5 on tunnel 0) inside two different relay envelopes (counters 7 and 8 on tunnel 1), goroutine
+-- 2 carries a direct copy of it; all three are authentic. Whatever the interleaving, counter 5 is acted
+-- upon once on tunnel 0.
+example : ∃ b0 : Nat → Bits, (∀ T, newBits (BitVec.ofNat 64 (2 ^ 4)) = some (b0 T)) ∧
+    ((run (fun t => if t = 2 then [⟨0, 5#64, true⟩] else [⟨1, BitVec.ofNat 64 (7 + t), true⟩, ⟨0, 5#64, true⟩])
+        (init b0) [0, 1, 2, 0, 1, 2, 0, 1, 2, 0, 1, 0, 1, 0, 1]).delivered.map (fun e => (e.2.1, e.2.2))).Nodup :=
+  deliver_at_most_once_fresh (fun _ => 4) (fun _ => by decide) _ _
 
 end Nebula.Props.C12
